@@ -61,7 +61,10 @@ func (r *Reader) ReadEntry() (*Entry, error) {
 			return r.parseEntryData(record.data)
 
 		case RecordTypeFirst:
-			// Start of a fragmented entry
+			// Start of a fragmented entry. Fragments still pending here belong
+			// to an entry whose tail was never written; drop them instead of
+			// gluing two entries together
+			r.fragments = r.fragments[:0]
 			r.fragments = append(r.fragments, record.data)
 			r.currType = record.data[0] // Save the operation type
 
